@@ -168,14 +168,14 @@ normalised definition of an element consists of numbers and base elements
 only, so one level of expansion is what the recursion amounts to; `fuel`
 bounds the nesting for structural recursion.) -/
 def iterNormalized (env : Env) : Nat → Items → Items
-  | _, [] => []
   | 0, items => items
-  | fuel + 1, (.num q, e) :: rest => (.num q, e) :: iterNormalized env (fuel + 1) rest
-  | fuel + 1, (.atom a, e) :: rest =>
-    let i := env.info a
-    if i.isBase then (.atom a, e) :: iterNormalized env (fuel + 1) rest
-    else iterNormalized env fuel (i.normDef.map fun (b, be) => (b, be * e))
-           ++ iterNormalized env (fuel + 1) rest
+  | fuel + 1, items => items.flatMap fun (el, e) =>
+    match el with
+    | .num q => [(.num q, e)]
+    | .atom a =>
+      let i := env.info a
+      if i.isBase then [(.atom a, e)]
+      else iterNormalized env fuel (i.normDef.map fun (b, be) => (b, be * e))
 
 def normFuel : Nat := 8
 
